@@ -64,6 +64,10 @@ def corpus():
     mux = D.Mux(2, 0, None, u8(), [D.MuxCase("c1", 1, 1, None), D.MuxCase("c2", 2, 2, D.Struct([val("a", u8())]))])
     out.append(("mux-structureless-case-gap", C("RQ", "request", [D.sid(), val("m", mux), val("y", u8())]),
                 {"m": ("c1", {}), "y": 0x77}, None))
+    # found in round 3: last item of a static field at the end of the PDU: terminator omitted, then padded to ITEM-BYTE-SIZE
+    mm = D.SimpleDop(D.MinMax("A_ASCIISTRING", 0, 3, "HEX-FF"), "A_ASCIISTRING")
+    out.append(("static-field-last-item-end-of-pdu", C("RQ", "request", [D.sid(), val("f", D.StaticField(2, 5, D.Struct([val("n", u8()), val("s", mm)])))]),
+                {"f": [{"n": 1, "s": "ab"}, {"n": 2, "s": "c"}]}, None))
     # response with request echo
     out.append(("matching-request", C("PR", "pos-response", [D.sid(0x62), D.matching_request("echo", 1, 2), val("v", u8(16, hl=False))]),
                 {"v": 0x1234}, bytes.fromhex("22f190")))
